@@ -234,6 +234,8 @@ pub struct ExecResult {
     pub trace_finalized: bool,
     /// number of density evaluations per Model::math instance (0 = controller)
     pub evals_per_instance: Vec<u64>,
+    /// recorded decisions (task choices, random-stream values) when ExecParams::record was set
+    pub decisions: (Vec<u32>, Vec<u64>),
 }
 
 struct Shared {
@@ -254,6 +256,8 @@ pub struct ExecParams {
     pub with_faults: bool,
     pub num_chains: usize,
     pub num_cores: usize,
+    /// record the scheduler's decisions (ExecResult::decisions)
+    pub record: bool,
 }
 
 const MAX_WAITS: u32 = 20_000;
@@ -452,7 +456,7 @@ pub fn execute(sc: &SchedScenario, p: ExecParams) -> ExecResult {
         sim_time_ns: 0,
         timer_fires: 0,
     }));
-    let trace = Arc::new(Mutex::new(SchedTrace::default()));
+    let trace = Arc::new(Mutex::new(SchedTrace { record: p.record, ..Default::default() }));
     let scheduler = SeededScheduler::new(p.personality.clone(), p.sched_seed, trace.clone());
     let mut config = shuttle::Config::new();
     config.stack_size = 2 << 20;
@@ -534,6 +538,7 @@ pub fn execute(sc: &SchedScenario, p: ExecParams) -> ExecResult {
         finalized_chains: rc.finalized_chains.clone(),
         trace_finalized: rc.trace_finalized,
         evals_per_instance: evals_pi.lock().unwrap().clone(),
+        decisions: (tr.choices.clone(), tr.data.clone()),
     }
 }
 
@@ -625,6 +630,7 @@ impl SchedScenario {
                 with_faults: false,
                 num_chains: nc,
                 num_cores: 1,
+                record: false,
             },
         )
     }
@@ -780,10 +786,54 @@ impl Scenario for SchedScenario {
             crate::checks::fix_early_window(&mut s.preset, nt / 2);
             v.push(s);
         }
+        if let Personality::Script { choices, data } = &self.personality {
+            // decision-list minimisation: shorter prefixes (the rest follows the FIFO rule), blocks replaced by
+            // "stay on the current task", and the timer stream replaced by the default pattern
+            let n = choices.len();
+            let mut lens: Vec<usize> = vec![0, n / 8, n / 4, n / 2, n - n / 4, n - n / 8, n.saturating_sub(8), n.saturating_sub(1)];
+            lens.sort();
+            lens.dedup();
+            for l in lens {
+                if l < n {
+                    let mut s = self.clone();
+                    s.personality = Personality::Script { choices: choices[..l].to_vec(), data: data.clone() };
+                    v.push(s);
+                }
+            }
+            if !data.is_empty() {
+                let mut s = self.clone();
+                s.personality = Personality::Script { choices: choices.clone(), data: vec![] };
+                v.push(s);
+            }
+            let blocks = 8.min(n);
+            for b in 0..blocks {
+                let (lo, hi) = (b * n / blocks, (b + 1) * n / blocks);
+                if choices[lo..hi].iter().all(|c| *c == crate::sched::SCRIPT_STAY) {
+                    continue;
+                }
+                let mut c2 = choices.clone();
+                for c in &mut c2[lo..hi] {
+                    *c = crate::sched::SCRIPT_STAY;
+                }
+                let mut s = self.clone();
+                s.personality = Personality::Script { choices: c2, data: data.clone() };
+                v.push(s);
+            }
+            return v;
+        }
         if self.personality != Personality::Fifo {
             let mut s = self.clone();
             s.personality = Personality::Fifo;
             v.push(s);
+        }
+        // last resort of the configuration-level shrinking: make the schedule explicit (decision list of the
+        // failing execution), which the candidates above then shorten
+        if let Some(k) = self.only_schedule {
+            if !self.enumerate_faults {
+                if let Some(s) = self.scripted(k) {
+                    v.push(s);
+                }
+            }
         }
         v
     }
@@ -803,6 +853,36 @@ impl Scenario for SchedScenario {
 
 
 impl SchedScenario {
+    /// the same scenario with schedule `k` made explicit as a decision list
+    fn scripted(&self, k: u32) -> Option<SchedScenario> {
+        let nc = num_chains(&self.preset);
+        let base = self.baseline(nc);
+        let (pers, seed) = schedule_params(self, k, base.steps);
+        let ex = execute(
+            self,
+            ExecParams {
+                personality: pers,
+                sched_seed: seed,
+                script: self.script.clone(),
+                ending: self.ending.clone(),
+                callback_rate_us: self.callback_rate_us,
+                with_faults: self.prop == "C13",
+                num_chains: nc,
+                num_cores: self.num_cores,
+                record: true,
+            },
+        );
+        let (choices, data) = ex.decisions;
+        if choices.is_empty() || choices.len() > 400_000 {
+            return None;
+        }
+        let mut s = self.clone();
+        s.personality = Personality::Script { choices, data };
+        s.n_schedules = 1;
+        s.only_schedule = Some(0);
+        Some(s)
+    }
+
     fn run_schedules(&self, base: &ExecResult, base_seqs: &[Vec<u64>], what: &str) -> RunOutcome {
         let mut out = RunOutcome::default();
         let mut dg = Digest::new();
@@ -826,6 +906,7 @@ impl SchedScenario {
                     with_faults,
                     num_chains: nc,
                     num_cores: self.num_cores,
+                    record: false,
                 },
             );
             dg.u64(exec_digest(&ex));
